@@ -54,6 +54,7 @@ import (
 	"github.com/containers/nri-plugins/pkg/cpuallocator"
 	"github.com/containers/nri-plugins/pkg/sysfs"
 	"github.com/containers/nri-plugins/pkg/utils/cpuset"
+	idset "github.com/intel/goresctrl/pkg/utils"
 
 	"verif/harness/sysgen"
 )
@@ -257,6 +258,22 @@ func c08Divisor(r *sysgen.RNG, a, b int) int {
 	return sysgen.Pick(r, ds)
 }
 
+func c08Minus(xs []int, off []idset.ID) []int {
+	var out []int
+	for _, x := range xs {
+		keep := true
+		for _, o := range off {
+			if int(o) == x {
+				keep = false
+			}
+		}
+		if keep {
+			out = append(out, x)
+		}
+	}
+	return out
+}
+
 func c08Setup(ctx *Ctx, m *sysgen.Machine, dirname string) *c08Machine {
 	root := filepath.Join(ctx.Work, "c08", dirname)
 	os.RemoveAll(root)
@@ -268,6 +285,19 @@ func c08Setup(ctx *Ctx, m *sysgen.Machine, dirname string) *c08Machine {
 	mm := &c08Machine{m: m, online: m.OnlineCPUs()}
 	sort.Ints(mm.online)
 	var err error
+	// every fourth machine (by name, no PRNG draw): one or two online CPUs other than CPU 0 go offline after discovery
+	var offlined []idset.ID
+	if h := hashStr(m.Name); h%4 == 0 && len(mm.online) > 3 {
+		for k := uint64(0); k < 1+(h/4)%2; k++ {
+			c := mm.online[int((h/8+k*7)%uint64(len(mm.online)))]
+			if c > 0 && (len(offlined) == 0 || offlined[0] != idset.ID(c)) {
+				offlined = append(offlined, idset.ID(c))
+			}
+		}
+	}
+	for _, id := range offlined { // hot-pluggable CPUs have a per-CPU online file
+		_ = os.WriteFile(filepath.Join(root, "sys", "devices", "system", "cpu", fmt.Sprintf("cpu%d", id), "online"), []byte("1\n"), 0o644)
+	}
 	build := func() cpuallocator.CPUAllocator {
 		var a cpuallocator.CPUAllocator
 		var sys sysfs.System
@@ -282,6 +312,21 @@ func c08Setup(ctx *Ctx, m *sysgen.Machine, dirname string) *c08Machine {
 		if got := sys.OnlineCPUs().List(); !c08Equal(got, mm.online) {
 			ctx.Count("machines_discovery_mismatch")
 			return nil
+		}
+		if len(offlined) > 0 {
+			// CPUs taken offline AFTER discovery (System.SetCpusOnline): the topology still lists them as thread
+			// siblings / core members, System.Offlined() is what keeps them out of every allocation
+			if _, e := sys.SetCpusOnline(false, idset.NewIDSet(offlined...)); e != nil {
+				ctx.Count("machines_offlining_failed")
+				return nil
+			}
+			for _, id := range offlined { // the next discovery of this tree must see them online again
+				_ = os.WriteFile(filepath.Join(root, "sys", "devices", "system", "cpu", fmt.Sprintf("cpu%d", id), "online"), []byte("1\n"), 0o644)
+			}
+			if got := sys.OnlineCPUs().List(); !c08Equal(got, c08Minus(mm.online, offlined)) {
+				ctx.Count("machines_offlining_mismatch")
+				return nil
+			}
 		}
 		msg, _ = Guard(func() { a = cpuallocator.NewCPUAllocator(sys) })
 		if msg != "" || a == nil {
@@ -298,6 +343,10 @@ func c08Setup(ctx *Ctx, m *sysgen.Machine, dirname string) *c08Machine {
 	}
 	if mm.b = build(); mm.b == nil {
 		return nil
+	}
+	if len(offlined) > 0 {
+		mm.online = c08Minus(mm.online, offlined)
+		ctx.Count("machines_with_cpus_offlined_after_discovery")
 	}
 	// units of the model (online CPUs only)
 	seenCore, seenL2, seenPkg := map[[2]int]int{}, map[int]int{}, map[int]int{}
